@@ -241,7 +241,8 @@ class DerivedLevel(Level):
             levels = sample[f]
             for j in range(window.width):
                 idx = i+(j-(window.width-1))*sustain_count
-                if idx >= 0:
+                # A factor has no level (None, or a placeholder named "") in trials where it does not apply
+                if idx >= 0 and levels[idx] is not None and levels[idx].name != "":
                     args.append(levels[idx].name)
                 else:
                     args.append(None)
